@@ -3,6 +3,9 @@
 package eni
 
 import (
+	podENITypes "github.com/AliyunContainerService/terway/pkg/apis/network.alibabacloud.com/v1beta1"
+	"github.com/AliyunContainerService/terway/rpc"
+	"github.com/AliyunContainerService/terway/types/daemon"
 	"k8s.io/client-go/tools/record"
 	"sigs.k8s.io/controller-runtime/pkg/client"
 	"sigs.k8s.io/controller-runtime/pkg/reconcile"
@@ -14,4 +17,13 @@ func VerifNewNodeReconcile(c client.Client, nodeName string) reconcile.Reconcile
 	r := &nodeReconcile{client: c, record: record.NewFakeRecorder(1000), nodeName: nodeName}
 	r.once.Do(func() {})
 	return r
+}
+
+// VerifRemoteToRPC builds a RemoteIPResource and renders it.
+func VerifRemoteToRPC(trunk *daemon.ENI, podENI *podENITypes.PodENI) []*rpc.NetConf {
+	r := &RemoteIPResource{podENI: *podENI}
+	if trunk != nil {
+		r.trunkENI = *trunk
+	}
+	return r.ToRPC()
 }
